@@ -191,6 +191,23 @@ func (s *rxSession) open() error {
 	return nil
 }
 
+// unsolicited: a macat that was given no --data / --file sends nothing.  On the patterns where the
+// peer could receive (pair, bus, star) the peer looks into its queue at the end of the session -
+// macat has printed records by then, so whatever it sent when it started has long arrived.
+func (s *rxSession) unsolicited() (string, bool) {
+	if s.pat.mode != modeOneway || (s.pat.name != "pair" && s.pat.name != "bus" && s.pat.name != "star") {
+		return "", false
+	}
+	if err := s.pe.sock.SetOption(mangos.OptionRecvDeadline, 300*time.Millisecond); err != nil {
+		return "", false
+	}
+	b, err := s.pe.sock.Recv()
+	if err != nil {
+		return "", false
+	}
+	return show(b), true
+}
+
 // close kills macat and returns whatever output was left unread.
 func (s *rxSession) close() (trailing []byte) {
 	s.p.kill()
@@ -352,6 +369,13 @@ func runRx(st *ekit.Stats, format string, fflag []string, pat rxPattern, extra [
 			}
 			insync = ok
 			i++
+		}
+		if insync {
+			if u, yes := s.unsolicited(); yes {
+				fails = append(fails, rxFailure{idx: i - 1, class: "sent-without-data", kind: "fail", msg: fmt.Sprintf("macat was given no --data / --file, yet its peer received a message from it: %s", u)})
+			} else {
+				st.Count("receive-only-session-sent-nothing")
+			}
 		}
 		if tr := s.close(); insync && len(tr) > 0 {
 			fails = append(fails, rxFailure{idx: i - 1, class: "trailing-output", kind: "fail", msg: fmt.Sprintf("output after the last sentinel: %s", show(tr))})
